@@ -156,7 +156,9 @@ impl InstructionGenerator {
         if !is_positive {
             self.label_suffix.push_str("_negative-step");
         }
+        self.for_depth += 1;
         self.visit(statements);
+        self.for_depth -= 1;
         self.label_suffix.truncate(label_suffix_len);
 
         // to be able to resume after an error at the last statement and then pop registers
